@@ -26,6 +26,9 @@ SOURCE_FUNCS = (
         "__init__", "agents", "_add_agent", "_remove_agent", "calculate_difference_vector", "calculate_distances",
         "get_agents_in_radius", "get_k_nearest_agents", "in_bounds", "torus_correct")]
     + [(_AGT, "ContinuousSpaceAgent")]          # position getter/setter, __init__, remove, the two neighbour forms
+    # agent.remove() / model.remove_all_agents() as far as they reach the space (round 3)
+    + [("mesa/agent.py", "Agent.remove"), ("mesa/model.py", "Model.register_agent"),
+       ("mesa/model.py", "Model.deregister_agent"), ("mesa/model.py", "Model.remove_all_agents")]
 )
 TABLE_CONSTRUCTS = [
                     # code-level T1 (harness/tables/continuous_code.py): translated functions + statement skeletons
